@@ -104,8 +104,25 @@ LOW_POS = {"index", "position"}      # claimed range is [pos, ..): consumers adv
 HIGH_POS = {"index_back"}            # claimed range is [.., pos): shrinks from the back
 
 
-def range_driver(drv):
-    """(Range aggregate, +1 forward / -1 backward) if the driver call folds directly over a `lo..hi` range, else None."""
+def range_driver(drv, ap=None):
+    """(Range aggregate, +1 forward / -1 backward) if the driver call folds directly over a `lo..hi` range, else None.
+    The crate's own `generate` counts as the forward driver over 0..N of the sequence it builds: it calls its closure with 0, 1, .., N-1 in
+    ascending order, once each (C08.G decides that for every generate in the crate)."""
+    if ap is not None and drv.fn.endswith("GenericSequence::generate") and drv.targs and drv.args and isinstance(drv.args[0], tuple) and drv.args[0][0] == "A":
+        from .tys import adt_args, is_ga
+        t = drv.targs[0]
+        for _ in range(4):
+            if isinstance(t, dict) and t.get("k") == "alias":
+                t = ap.tenv.resolve_local_assoc(t)
+            elif isinstance(t, dict) and t.get("k") == "adt" and t["def"] == "alloc::boxed::Box":
+                t = adt_args(t)[0]
+            elif isinstance(t, dict) and t.get("k") == "ref":
+                t = t.get("t")
+            else:
+                break
+        if isinstance(t, dict) and is_ga(t):
+            n_ = ap.tenv.length(adt_args(t)[1])
+            return ("A", ("adt", "core::ops::Range", 0), (("I", Poly.const(0)), ("I", n_))), 1
     fwd = ("core::iter::Iterator::fold", "core::iter::Iterator::for_each", "core::iter::Iterator::try_fold", "core::iter::Iterator::try_for_each")
     bwd = ("core::iter::DoubleEndedIterator::rfold", "core::iter::DoubleEndedIterator::try_rfold")
     if drv.fn not in fwd + bwd or not drv.args:
@@ -146,7 +163,7 @@ def indexed_traversal(ap, drv, g, info, role, owners):
         return [], ""
     if not info.get("indexed"):
         return [], ""
-    rd = range_driver(drv)
+    rd = range_driver(drv, ap)
     if rd is None:
         return None, "slots are addressed by an index parameter but the driver %s does not fold directly over a `lo..hi` range" % drv.fn
     (_r, direction) = rd
